@@ -27,7 +27,8 @@ import (
 // "forge" (A=session id, B=variant: transport with that session's device index and a fresh counter that does
 // not authenticate), "replay" (A=session id: the last message sent under it, again),
 // "idle" (A=milliseconds the ages are shifted by, B=whole seconds: then REAL time passes, with the
-// socket idle, until the ages are B s + a margin; the model sees Tick B).
+// socket idle, until the ages are B s + a margin; the model sees Tick B),
+// "restart" (interface Down then Up: every peer is stopped and started).
 type Ev struct {
 	K string `json:"k"`
 	A uint64 `json:"a,omitempty"`
@@ -121,7 +122,7 @@ func (r *runner) do(e Ev) Obs {
 	var out cosim.Out
 	if r.idle {
 		switch e.K {
-		case "init", "resp", "cr", "idle":
+		case "init", "resp", "cr", "idle", "restart":
 			r.margin = true // new keys after real idle time: whole-second ages no longer controlled
 		case "tick":
 			r.limit += time.Duration(e.A) * time.Second
@@ -200,6 +201,14 @@ func (r *runner) do(e Ev) Obs {
 		} else {
 			out = r.w.Take()
 		}
+	case "restart":
+		if err := r.w.Dev.Down(); err != nil {
+			panic(err)
+		}
+		if err := r.w.Dev.Up(); err != nil {
+			panic(err)
+		}
+		out = r.w.Take()
 	case "idle":
 		r.idleBegin(e)
 		for !r.idleReady(e) {
@@ -355,6 +364,7 @@ const (
 	aForgeNext
 	aForgeRetired
 	aReplay
+	aRestart
 )
 
 func (r *runner) sidOfIndex(idx uint32) (uint64, bool) {
@@ -442,6 +452,8 @@ func (r *runner) resolve(kind int, arg uint64, rnd *rand.Rand) []Ev {
 			v = uint64(rnd.Intn(64))
 		}
 		return []Ev{{K: "forge", A: evs[0].A, B: v}}
+	case aRestart:
+		return []Ev{{K: "restart"}}
 	case aSend:
 		return []Ev{{K: "send"}}
 	case aTick:
@@ -571,7 +583,7 @@ type weighted struct {
 var randomMix = []weighted{
 	{aCI, 14}, {aCR, 14}, {aRecvPrev, 7}, {aRecvCur, 9}, {aRecvNext, 8}, {aRecvRetired, 6}, {aRecvUnaccepted, 3},
 	{aSend, 14}, {aTick, 6}, {aTickEdge, 12}, {aInitiate, 4}, {aRespondStale, 2}, {aRespondNow, 3},
-	{aForgeNext, 7}, {aForgeCur, 3}, {aForgePrev, 2}, {aForgeRetired, 2}, {aReplay, 3},
+	{aForgeNext, 7}, {aForgeCur, 3}, {aForgePrev, 2}, {aForgeRetired, 2}, {aReplay, 3}, {aRestart, 5},
 }
 
 var tickChoices = []uint64{1, 4, 6, 45, 61, 119, 121, 164, 166, 179, 181}
@@ -602,6 +614,9 @@ func runRandom(rnd *rand.Rand, depth int) Case {
 		}
 		if follow >= 0 {
 			kind, follow = follow, -1
+		} else if kind == aRestart && rnd.Intn(10) < 7 {
+			// probe what was held a moment ago (the newest session: often the unconfirmed key)
+			follow = []int{aRecvRetired, aRecvRetired, aRecvUnaccepted, aForgeRetired, aSend}[rnd.Intn(5)]
 		} else if kind == aTickEdge && rnd.Intn(10) < 6 {
 			// use the aged keys right away
 			follow = []int{aSend, aSend, aRecvCur, aRecvCur, aRecvPrev, aRecvNext}[rnd.Intn(6)]
@@ -660,7 +675,7 @@ type absEv struct {
 	arg  uint64
 }
 
-var alphabet7 = []absEv{{aCI, 0}, {aCR, 0}, {aRecvPrev, 0}, {aRecvCur, 0}, {aRecvNext, 0}, {aRecvRetired, 0}, {aSend, 0}, {aTick, 61}, {aTick, 121}, {aForgeNext, 0}}
+var alphabet7 = []absEv{{aCI, 0}, {aCR, 0}, {aRecvPrev, 0}, {aRecvCur, 0}, {aRecvNext, 0}, {aRecvRetired, 0}, {aSend, 0}, {aTick, 61}, {aTick, 121}, {aForgeNext, 0}, {aRestart, 0}}
 
 // the extended alphabet: also short ticks (5 s spacing), timer-style initiation, stale response
 var alphabetFull = append(append([]absEv{}, alphabet7...), absEv{aTick, 4}, absEv{aTick, 45}, absEv{aInitiate, 0}, absEv{aRespondStale, 0}, absEv{aRespondNow, 0},
@@ -752,6 +767,8 @@ func stepInts(e Ev, o Obs) []uint64 {
 		k, a = 6, e.A
 	case "replay":
 		k, a = 7, e.A
+	case "restart":
+		k = 8
 	}
 	v := []uint64{k, a, b, optInt(o.Init), b2i(o.Resp), b2i(o.Tun)}
 	for _, s := range []Slot{o.Prev, o.Cur, o.Next} {
